@@ -32,15 +32,17 @@ structure Token where
 
 def inR (c : Char) (lo hi : Nat) : Bool := lo ≤ c.toNat && c.toNat ≤ hi
 
-/-- fragment ISC: identifier start -/
-def isISC (c : Char) : Bool :=
-  inR c 0x41 0x5A || inR c 0x61 0x7A || inR c 0xC0 0xD6 || inR c 0xD8 0xF6 || inR c 0xF8 0x2FF ||
-  inR c 0x370 0x37D || inR c 0x37F 0x1FFF || inR c 0x200C 0x200D || inR c 0x2070 0x218F ||
-  inR c 0x2C00 0x2FEF || inR c 0x3001 0xD7FF || inR c 0xF900 0xFDCF || inR c 0xFDF0 0xFFFD
+/-- fragment ISC: identifier start (tied to the grammar file by `Properties/SyntaxTie`) -/
+def iscRanges : List (Nat × Nat) := [(0x41, 0x5A), (0x61, 0x7A), (0xC0, 0xD6), (0xD8, 0xF6), (0xF8, 0x2FF), (0x370, 0x37D),
+  (0x37F, 0x1FFF), (0x200C, 0x200D), (0x2070, 0x218F), (0x2C00, 0x2FEF), (0x3001, 0xD7FF), (0xF900, 0xFDCF), (0xFDF0, 0xFFFD)]
+
+/-- what fragment IC adds to ISC besides `_` and U+00B7 -/
+def icRanges : List (Nat × Nat) := [(0x30, 0x39), (0x300, 0x36F), (0x203F, 0x2040)]
+
+def isISC (c : Char) : Bool := iscRanges.any (fun r => inR c r.1 r.2)
 
 /-- fragment IC: identifier continuation -/
-def isIC (c : Char) : Bool :=
-  isISC c || inR c 0x30 0x39 || c == '_' || c.toNat == 0xB7 || inR c 0x300 0x36F || inR c 0x203F 0x2040
+def isIC (c : Char) : Bool := isISC c || c == '_' || c.toNat == 0xB7 || icRanges.any (fun r => inR c r.1 r.2)
 
 def isDec (c : Char) : Bool := inR c 0x30 0x39
 def isOct (c : Char) : Bool := inR c 0x30 0x37
@@ -188,26 +190,33 @@ def mLineComment (cs : List Char) : Option Nat :=
   | '/' :: '/' :: rest => some (2 + span (fun c => c != '\r' && c != '\n') rest)
   | _ => none
 
-/-- every lexer rule in the order of the grammar file (the implicit `','` token comes first) -/
-def rules : List (TK × (List Char → Option Nat)) := [
-  (.comma, lit [',']),
-  (.plus, lit ['+']), (.minus, lit ['-']), (.div, lit ['/']), (.mul, lit ['*']), (.mod, lit ['%']),
-  (.dot, lit ['.']), (.semi, lit [';']),
-  (.lbrace, lit ['{']), (.rbrace, lit ['}']), (.lparen, lit ['(']), (.rparen, lit [')']),
-  (.lsq, lit ['[']), (.rsq, lit [']']),
-  (.kRule, kw ['r','u','l','e']), (.kWhen, kw ['w','h','e','n']), (.kThen, kw ['t','h','e','n']),
-  (.and, lit ['&','&']), (.or, lit ['|','|']),
-  (.kTrue, kw ['t','r','u','e']), (.kFalse, kw ['f','a','l','s','e']), (.kNil, kw ['n','i','l']),
-  (.bang, lit ['!']), (.kSalience, kw ['s','a','l','i','e','n','c','e']),
-  (.eqeq, lit ['=','=']), (.assign, lit ['=']), (.plusAs, lit ['+','=']), (.minusAs, lit ['-','=']),
-  (.divAs, lit ['/','=']), (.mulAs, lit ['*','=']), (.gt, lit ['>']), (.lt, lit ['<']),
-  (.gte, lit ['>','=']), (.lte, lit ['<','=']), (.neq, lit ['!','=']),
-  (.bitand, lit ['&']), (.bitor, lit ['|']),
+/-- the rules with a fixed text, in the order of the grammar file: (kind, case-insensitive?, text) -/
+def fixedTable : List (TK × Bool × String) := [
+  (.plus, false, "+"), (.minus, false, "-"), (.div, false, "/"), (.mul, false, "*"), (.mod, false, "%"),
+  (.dot, false, "."), (.semi, false, ";"),
+  (.lbrace, false, "{"), (.rbrace, false, "}"), (.lparen, false, "("), (.rparen, false, ")"),
+  (.lsq, false, "["), (.rsq, false, "]"),
+  (.kRule, true, "rule"), (.kWhen, true, "when"), (.kThen, true, "then"),
+  (.and, false, "&&"), (.or, false, "||"),
+  (.kTrue, true, "true"), (.kFalse, true, "false"), (.kNil, true, "nil"),
+  (.bang, false, "!"), (.kSalience, true, "salience"),
+  (.eqeq, false, "=="), (.assign, false, "="), (.plusAs, false, "+="), (.minusAs, false, "-="),
+  (.divAs, false, "/="), (.mulAs, false, "*="), (.gt, false, ">"), (.lt, false, "<"),
+  (.gte, false, ">="), (.lte, false, "<="), (.neq, false, "!="),
+  (.bitand, false, "&"), (.bitor, false, "|")
+]
+
+/-- the other rules, in the order of the grammar file -/
+def patternRules : List (TK × (List Char → Option Nat)) := [
   (.name, mName), (.dq, mStr '"'), (.sq, mStr '\''),
   (.decFloat, mDecFloat), (.decExp, mExp 'e'), (.hexFloat, mHexFloat), (.hexExp, mExp 'p'),
   (.dec, mDecLit), (.hex, mHexLit), (.oct, mOctLit),
   (.space, mSpace), (.comment, mComment), (.lineComment, mLineComment)
 ]
+
+/-- every lexer rule in the order of the grammar file (the implicit `','` token of the parser rules comes first) -/
+def rules : List (TK × (List Char → Option Nat)) :=
+  (.comma, lit [',']) :: fixedTable.map (fun (k, ci, w) => (k, if ci then kw w.toList else lit w.toList)) ++ patternRules
 
 /-- longest match; the earlier rule wins a tie -/
 def pick (cs : List Char) : List (TK × (List Char → Option Nat)) → Option (TK × Nat) → Option (TK × Nat)
